@@ -260,7 +260,7 @@ func (r *runner) run() int {
 	loadT := time.Since(r.t0)
 	var mine []harnessSrc
 	for _, h := range hs {
-		if strings.HasPrefix(h.Name, "ZZH_"+r.prop+"_") && (r.only == "" || strings.Contains(h.Name, r.only)) {
+		if strings.HasPrefix(h.Name, "ZZH_"+r.prop+"_") && matchOnly(h.Name, r.only) {
 			mine = append(mine, h)
 		}
 	}
@@ -540,4 +540,21 @@ func sanitize(s string) string {
 		}
 		return '_'
 	}, s)
+}
+
+// matchOnly: "" = all; "=X" = harness name ends with "_X"; otherwise substring.
+func matchOnly(name, only string) bool {
+	if only == "" {
+		return true
+	}
+	for _, o := range strings.Split(only, ",") {
+		if strings.HasPrefix(o, "=") {
+			if strings.HasSuffix(name, "_"+o[1:]) {
+				return true
+			}
+		} else if strings.Contains(name, o) {
+			return true
+		}
+	}
+	return false
 }
